@@ -459,6 +459,7 @@ func cmdDump(args []string) int {
 	repo := fs.String("repo", "/repo", "repository")
 	solve := fs.Bool("solve", false, "run solvers")
 	show := fs.Bool("smt", false, "print SMT")
+	split := fs.Bool("split", false, "split conjunctive goals of failing obligations and solve each conjunct")
 	fs.Parse(args)
 	w, err := loadWorld(*repo, filepath.Join(verifDir, "specs"))
 	if err != nil {
@@ -490,6 +491,15 @@ func cmdDump(args []string) int {
 			}
 			if *solve && o.Verdict != "unsat" && !o.Cover {
 				fmt.Println("   model:", parseModel(o, o.Raw), "relaxed:", parseModel(o, o.Relaxed))
+				if *split {
+					for _, cj := range flattenAnd(o.Goal) {
+						o2 := *o
+						o2.Goal = cj
+						sv2 := newSolver(filepath.Join(verifDir, "out", "smt", "dump"), "quick", 0)
+						sv2.solve(&o2)
+						fmt.Printf("      %-8s %s\n", o2.Verdict, trunc(cj, 300))
+					}
+				}
 			}
 		}
 	}
@@ -506,4 +516,15 @@ func cmdReplay(args []string) int {
 	}
 	fmt.Println(string(data))
 	return 0
+}
+
+func flattenAnd(g string) []string {
+	if strings.HasPrefix(g, "(and ") {
+		var out []string
+		for _, p := range splitSexp(g[5 : len(g)-1]) {
+			out = append(out, flattenAnd(p)...)
+		}
+		return out
+	}
+	return []string{g}
 }
